@@ -117,3 +117,55 @@ CONTRACTS.append(call_contract('no-values,intersection-or-exclusion', Tup([]), [
                                'admit everything'))
 CONTRACTS.append(call_contract('no-values,union', Tup([]), ['not in_denotation'],
                                'with no values the test is skipped: wrong for the empty union, which admits nothing'))
+
+
+# ---- derivation: extending a constraint set keeps every operand (C10/C14: a derived type never drops a constraint) ----
+def _cobj(i):
+    def eq(ex, self, other):
+        # equality of constraint objects is by operands: an arbitrary relation as far as this contract is concerned
+        return ex.fresh('eq.%d' % i, z3.BoolSort())
+    return Obj('Constraint', {'__truthy__': Bool('nonempty.%d' % i)}, {'__eq__': eq, '__ne__': lambda ex, s, o: Not(eq(ex, s, o))},
+               name='operand%d' % i)
+
+
+def _set_model():
+    def add(ex, self, x):
+        self.fields['members'].items.append(x)
+    return Obj('set', {'members': Tup([], 'list')}, {'add': add}, name='valueMap')
+
+
+def _ctor(ex, *values):
+    return Obj('ConstraintSet', {'_values': Tup(list(values)), '_valueMap': _set_model()}, name='derived')
+
+
+def _cset(n):
+    def mk(ex, env):
+        return Obj('ConstraintSet', {'_values': Tup([_cobj(i) for i in range(n)]), '_valueMap': _set_model(),
+                                     '_extensionNarrows': env['narrows'], '__class__': FnV(_ctor, 'self.__class__')},
+                   name='self')
+    return mk
+
+
+NEW = _cobj(9)
+for n in range(3):
+    same = ' and '.join(['len(last_args("self._derive")[0]) == %d' % (n + 1)] +
+                        ['last_args("self._derive")[0][%d] is self._values[%d]' % (i, i) for i in range(n)] +
+                        ['last_args("self._derive")[0][%d] is value' % n])
+    CONTRACTS.append(Contract(
+        id='type.constraint::AbstractConstraintSet.__add__[%d]' % n, file=F, qual='AbstractConstraintSet.__add__', properties=P,
+        params=dict(narrows=PBool(), self=PDerived(_cset(n)), value=PConst(NEW)),
+        calls={'self._derive': lambda ex, values: _ctor(ex, *values.items)},
+        ensures=[('keeps-every-operand-and-appends', same), ('returns-derived', 'result is last_result("self._derive")')],
+        note='set + constraint: all %d operands kept in order, the new one appended, even if it compares equal to one '
+             'of them (equality of constraints is by operands, not by kind)' % n))
+    CONTRACTS.append(Contract(
+        id='type.constraint::AbstractConstraintSet._derive[%d]' % n, file=F, qual='AbstractConstraintSet._derive', properties=P,
+        params=dict(narrows=PBool(), self=PDerived(_cset(n)),
+                    values=PConst(Tup([_cobj(20 + i) for i in range(n + 1)]))),
+        ensures=[('same-class-all-values', 'len(result._values) == %d and ' % (n + 1) +
+                  ' and '.join('result._values[%d] is values[%d]' % (i, i) for i in range(n + 1))),
+                 ('derived-from-self-iff-narrowing',
+                  '(len(result._valueMap.members) == 1 and result._valueMap.members[0] is self) '
+                  'if (%s and self._extensionNarrows) else len(result._valueMap.members) == 0' % (n > 0))],
+        note='the derived set is registered as a subtype of this one exactly when extension can only narrow '
+             '(intersection / exclusion) and this set is not the empty one'))
